@@ -16,6 +16,8 @@ type Plan struct {
 	CloseDeltas []uint32
 	Add2        bool // multi-message Add over a reduced pair set
 	Keep        bool // SMF.Add while the track variable keeps being used
+	Write       bool // a WriteTo in the middle of the history (at most MaxWrites per history)
+	MaxWrites   int
 	MaxEvents   int
 	MaxTracks   int
 }
@@ -60,6 +62,9 @@ func (p Plan) Ops() []Op {
 	if p.Keep {
 		ops = append(ops, Op{Kind: OpSMFAddKeep})
 	}
+	if p.Write {
+		ops = append(ops, Op{Kind: OpWrite})
+	}
 	return ops
 }
 
@@ -101,6 +106,12 @@ func RunPlanCfgShard(ctx *engine.Ctx, p Plan, cfg Cfg, firstOp int, check CheckF
 			return m.Events+2 <= p.MaxEvents
 		case OpSMFAddKeep:
 			return len(m.Cur) > 0
+		case OpWrite:
+			mw := p.MaxWrites
+			if mw == 0 {
+				mw = 1
+			}
+			return m.Writes < mw && len(m.Tracks) > 0
 		}
 		return true
 	}
